@@ -290,7 +290,7 @@ func c06() []*Ob {
 					}
 				}
 				if n == 0 {
-					c.Undecided("pair:memo-key:none", token.NoPos, "no fill-on-miss memo found in frac/processor")
+					c.Site(token.NoPos, "no fill-on-miss memo in frac/processor (nothing to pair)")
 				}
 			}},
 		{Prop: "C06", ID: "C06.4", Engine: "ENUM+DIV", Floor: 1,
